@@ -900,6 +900,16 @@ impl<'b> InnerBucket<'b> {
                             let mut sibling = sibling.borrow_mut();
                             // Copy this node's data over to it's sibling
                             sibling.data.merge(&mut node.data);
+                            if index == 0 {
+                                // The right sibling now starts with this node's keys. Lower its
+                                // key in the parent too, or a search for those keys is sent to
+                                // the wrong child once the parent is merged into its own sibling.
+                                let key = sibling.data.first_key();
+                                if let NodeData::Branches(branches) = &mut parent.data {
+                                    branches[index + 1].set_key(key.clone());
+                                }
+                                sibling.original_key = Some(key);
+                            }
                             if !node.children.is_empty() {
                                 // Move all children nodes over to that sibling too
                                 for child in node.children.iter() {
